@@ -203,7 +203,9 @@ def run(ck):
         # ------------------------------------------------------------------ R09.3
         ev = prog.func('block:SBlock.event')
         ge = ck.cfg(ev.fid, 'M1')
-        hs = [n for n in ge.nodes if n.kind == 'handler' and ge.pred[n.id]]
+        from rules.shared import dispatch_handler_asts
+        dh_ = dispatch_handler_asts(ev)
+        hs = [n for n in ge.nodes if n.kind == 'handler' and ge.pred[n.id] and (not dh_ or n.ast in dh_)]
         gen = [h for h in hs if handler_types(h.ast) == ['Exception']]
         ck.need(R3, len(gen) == 1, "SBlock.event: generic handler not recognised")
         h = gen[0]
